@@ -425,10 +425,10 @@ class UnitGen:
                 a, b = line_bounds(hits[n - 1])
                 add(a if sec.kind == 'before' else b + 1, ml, cid, tags, sec.role)
         if self.canary and fid in self.canary:
-            # append assert(false) as last statement of the body
+            # assert(false) at function entry: must be reported unless `requires` is contradictory
             cid = fid + '.canary'
             g.clauses[cid] = dict(fn=fid, kind='canary', tags=[], role='canary', text='assert(false)', enabled=True, mode='verify')
-            add(len(body) - 1, ['%sproof { assert(false); } //@%s' % (ind2, cid)], cid, [], 'canary', True)
+            add(1, ['%sproof { assert(false); } //@%s' % (ind2, cid)], cid, [], 'canary')
 
         # assemble
         inserts.sort(key=lambda x: (x[0], x[1]))
